@@ -3,6 +3,7 @@ package rules
 import (
 	"fmt"
 	"go/token"
+	"go/types"
 	"strings"
 
 	"golang.org/x/tools/go/ssa"
@@ -24,6 +25,8 @@ func c14(c *eng.Ctx, r *eng.Report) {
 		"R14.5 wherever the bytes of a big integer are placed into a fixed-width big-endian buffer they are right-aligned (`copy(buf[W-len(b):], b)`), so values with leading zero bytes encode faithfully. " +
 		"R14.6 keys, signatures and scalars are values — Sign, VerifySig, GeneratePubkey, AggregatePubkeys and hashToG1 perform in-place curve operations only on objects they allocate (never through an argument or a shallow copy of one: Signature/Pubkey wrap a pointer), and every modular reduction of a scalar in the package is modulo the group order, so the scalar Sign multiplies by is the one GeneratePubkey exponentiates. " +
 		"R14.7 VerifySig is the only function of the node that evaluates the signature pairing (no second, e.g. aggregated, definition of validity), and the scalar hex printer/parser are an inverse pair. " +
+		"R14.8 the pairing is 1 as soon as either operand is the identity: optimalAte tests IsInfinity() of both its operands and sets the result to one under either (e(P,O) = e(O,Q) = 1 is what bilinearity needs at k = 0 and k = order). " +
+		"R14.9 a groupsig function whose pointer result some caller dereferences without a nil test (`*groupsig.DeserializeSign(raw)`) has no nil return — a malformed signature from a peer verifies as false, it does not crash the verifier. " +
 		"Not decided: bilinearity, non-degeneracy, subgroup membership, soundness (algebraic; the baseline's curve tests sample them)."
 	r.Assume = []string{"bn256 Pair / PairIsEuqal implement the optimal Ate pairing and equality in GT"}
 	c14Verify(c, r)
@@ -40,6 +43,8 @@ func c14(c *eng.Ctx, r *eng.Report) {
 	})
 	groupsigScalarField(c, r, "R14.6")
 	c14Verifiers(c, r)
+	c14PairIdentity(c, r)
+	c14NoNilResult(c, r)
 }
 
 func c14Verify(c *eng.Ctx, r *eng.Report) {
@@ -398,4 +403,95 @@ func c14Verifiers(c *eng.Ctx, r *eng.Report) {
 		ok := (text16 && setString16 && !bytesParser) || (evenPrinter && bytesParser && !text16)
 		r.Check(ok, rule, "BnInt:hex-pair", c.Pos(set.Pos()), "printer Text(16) with parser SetString(·,16) (or an even-length byte printer with a byte parser)", fmt.Sprintf("the scalar hex printer and parser are not an inverse pair (Text(16)=%v, SetString(16)=%v, even-length printer=%v, byte parser=%v): a key or id whose hex form has an odd number of digits is parsed back to a different value", text16, setString16, evenPrinter, bytesParser))
 	}
+}
+
+// c14PairIdentity: e(P, O) = e(O, Q) = 1. The Miller loop is not defined at the
+// identity, so optimalAte has to special-case it for both operands.
+func c14PairIdentity(c *eng.Ctx, r *eng.Report) {
+	const rule = "R14.8"
+	r.Min(rule, 1)
+	fn := c.Func("consensus/groupsig/bn256", "optimalAte")
+	if !r.Anchor(fn != nil, rule, "bn256.optimalAte") {
+		return
+	}
+	// which parameters have their IsInfinity() feeding a branch (or a short-circuit value feeding one)
+	tested := map[int]bool{}
+	for _, s := range eng.Sites(fn) {
+		if !strings.HasSuffix(s.Name(), ".IsInfinity") || len(s.Common().Args) == 0 {
+			continue
+		}
+		call, ok := s.Instr.(*ssa.Call)
+		if !ok {
+			continue
+		}
+		feeds := false
+		for _, b := range fn.Blocks {
+			if iff, isIf := b.Instrs[len(b.Instrs)-1].(*ssa.If); isIf && valueDerivesFromValue(iff.Cond, call) {
+				feeds = true
+			}
+		}
+		for i, p := range fn.Params {
+			if s.Common().Args[0] == ssa.Value(p) && feeds {
+				tested[i] = true
+			}
+		}
+	}
+	one := len(callsNamed(fn, ".SetOne")) > 0
+	r.Check(len(fn.Params) == 2 && tested[0] && tested[1] && one, rule, "optimalAte:identity-operands", c.Pos(fn.Pos()), "IsInfinity() of both operands decides whether the result is set to one", fmt.Sprintf("optimalAte does not set the result to one for an identity operand on both sides (G2 operand tested=%v, G1 operand tested=%v, SetOne present=%v): Pair(P, O) or Pair(O, Q) is then whatever the Miller loop makes of the identity, not 1 — e(P, Q+(-Q)) != e(P,Q)·e(P,-Q), and a signature check against an identity key or signature no longer reduces to comparing with 1", tested[0], tested[1], one))
+}
+
+// c14NoNilResult: callers write `*groupsig.DeserializeSign(raw)`.
+func c14NoNilResult(c *eng.Ctx, r *eng.Report) {
+	const rule = "R14.9"
+	r.Min(rule, 1)
+	n := 0
+	for _, fn := range c.PkgFuncs("consensus/groupsig") {
+		if c.IsTestFunc(fn) || fn.Signature.Results().Len() != 1 {
+			continue
+		}
+		if _, isPtr := fn.Signature.Results().At(0).Type().Underlying().(*types.Pointer); !isPtr {
+			continue
+		}
+		// an unguarded dereference of the result somewhere in the module
+		where := ""
+		for _, site := range c.Callers(fn) {
+			call, ok := site.Instr.(*ssa.Call)
+			if !ok || call.Referrers() == nil || c.IsTestFunc(site.Fn) {
+				continue
+			}
+			for _, ref := range *call.Referrers() {
+				deref := false
+				switch x := ref.(type) {
+				case *ssa.UnOp:
+					deref = x.Op == token.MUL
+				case *ssa.FieldAddr:
+					deref = true
+				}
+				if !deref {
+					continue
+				}
+				guarded := false
+				for _, cd := range eng.CondsAt(ref) {
+					if m, isM := cd.Cmp(); isM && m.Op == token.NEQ && (m.X == ssa.Value(call) && eng.IsNilConst(m.Y) || m.Y == ssa.Value(call) && eng.IsNilConst(m.X)) {
+						guarded = true
+					}
+				}
+				if !guarded && where == "" {
+					where = eng.FuncName(site.Fn) + " (" + c.Pos(ref.Pos()) + ")"
+				}
+			}
+		}
+		if where == "" {
+			continue
+		}
+		n++
+		nilRet := ""
+		for _, re := range eng.Returns(fn) {
+			if eng.IsNilConst(re.Incoming(0)) {
+				nilRet = c.Pos(re.Ret.Pos())
+			}
+		}
+		r.Check(nilRet == "", rule, "no-nil-result:"+eng.FuncName(fn), c.Pos(fn.Pos()), "never returns nil (its result is dereferenced without a test in "+where+")", eng.FuncName(fn)+" can return nil at "+nilRet+" while "+where+" dereferences the result without a nil test: bytes from a peer that fail to decode crash the verifying node instead of failing verification")
+	}
+	r.Check(n >= 1, rule, "no-nil-result:sites", "", fmt.Sprintf("%d pointer-returning functions with unguarded dereferences", n), "no groupsig function whose result is dereferenced unguarded was found (DeserializeSign expected)")
 }
